@@ -81,6 +81,9 @@ def cut_alphabet(u):
 def extra_cases(tier):
     """bounded-exhaustive segmentations of one small replication: every sequence of cuts up to a length"""
     out = []
+    if any(k.get("property") == PID and k.get("signature") == "pause-at-replication-end-cannot-be-resumed"
+           for k in C.load_known().get("findings", [])):
+        out += at_end_cases()       # known finding: make sure it is observed (and noticed when it goes away)
     rng = random.Random(C.seed() * 7919 + 3)
     for clock in (["float"] if tier == "quick" else ["float", "int", "durmin"]):
         u = 60 if clock == "durmin" else S.unit_of(clock)
@@ -108,6 +111,49 @@ def prepare(cases, obs):
         keys.append(uniq[k])
     res = S.run_impl(base)
     return [res[j] for j in keys]
+
+
+def end_finding_registered(pid):
+    """Transitional: the clause below is evaluated once the coordinator has either listed the finding in
+    known_findings.json (it is then reported as KNOWN-FINDING) or applied the repair (set VERIF_END_REPAIRED=1
+    / flip END_REPAIRED); until then C03 / C05 stay as registered."""
+    import os
+    if END_REPAIRED or os.environ.get("VERIF_END_REPAIRED"):
+        return True
+    return any(k.get("property") == pid and k.get("signature") == "pause-at-replication-end-cannot-be-resumed"
+               for k in C.load_known().get("findings", []))
+
+
+END_REPAIRED = False
+
+
+def stuck_at_end(case, obs, base, end, pid="C03"):
+    """paused exactly at the replication end time with events still pending: nothing can continue or end it"""
+    if not end_finding_registered(pid):
+        return None
+    if not obs["snaps"] or len(obs["snaps"]) < 2:
+        return None
+    r, rs, ps, clk, npend = obs["snaps"][-1]
+    last_cmd = case["cmds"][len(obs["snaps"]) - 1]
+    if (rs, ps) == ("STOPPED", "STARTED") and clk == end and r == "refused" and last_cmd[0] in ("start", "step") \
+            and base["snaps"][-1][1] == "ENDED" and len(base["trace"]) > len(obs["trace"]):
+        return (f"clock {clk}/4 = replication end, state {rs}/{ps}, {npend} event(s) pending, {last_cmd} refused: the replication can "
+                f"neither continue nor end; the uninterrupted run also executes {base['trace'][len(obs['trace']):][:6]} and ends")
+    return None
+
+
+def at_end_cases():
+    """programs that pause exactly at the end time: step onto an event at the end / stop() in its handler"""
+    out = []
+    for clock in ("int", "float", "dur"):
+        u = S.unit_of(clock)
+        e = 8 * u
+        prog = [[["sched", ["abs", e - u], 5, 1], ["sched", ["abs", e], 5, 1], ["sched", ["abs", e], 5, 1]], []]
+        out.append({"clock": clock, "strategy": "pause", "prog": prog,
+                    "cmds": [["init", 0, 0, e], ["runupto", e - u], ["step"], ["step"], ["start"]]})
+        prog2 = [[["sched", ["abs", e - u], 5, 1], ["sched", ["abs", e], 5, 2], ["sched", ["abs", e], 5, 1]], [], [["cmd", ["stop"]]]]
+        out.append({"clock": clock, "strategy": "pause", "prog": prog2, "cmds": [["init", 0, 0, e], ["start"], ["start"]]})
+    return out
 
 
 def oracle(case, obs, ctx, idx):
@@ -182,6 +228,10 @@ def oracle(case, obs, ctx, idx):
     tr = obs["trace"]
     bt = base["trace"]
     facts["executed"] = len(tr)
+    stuck = stuck_at_end(case, obs, base, end)
+    if stuck:
+        facts["paused_at_end"] = True
+        return ("pause-at-replication-end-cannot-be-resumed", stuck), facts
     if ended and not exclusive_cut_at_end:
         if tr != bt:
             return ("segmented-run-differs-from-uninterrupted-run",
